@@ -781,20 +781,21 @@ class Sequence:
         # Apply channel delays.
 
         if apply_delays:
-            delays = []
-            for chan in channels:
-                try:
-                    delays.append(self._awgspecs[f"channel{chan}_delay"])
-                except KeyError:
-                    delays.append(0)
+
+            def delays_for(elem):
+                # _applyDelays expects the delays in the order of elem.channels
+                return [
+                    self._awgspecs.get(f"channel{chan}_delay", 0)
+                    for chan in elem.channels
+                ]
 
             for pos in range(1, seqlen + 1):
                 if isinstance(data[pos], Sequence):
                     subseq = data[pos]
                     for elem in subseq._data.values():
-                        elem._applyDelays(delays)
+                        elem._applyDelays(delays_for(elem))
                 elif isinstance(data[pos], Element):
-                    data[pos]._applyDelays(delays)
+                    data[pos]._applyDelays(delays_for(data[pos]))
 
         # forge arrays and form the output dict
         for pos in range(1, seqlen + 1):
